@@ -1,10 +1,13 @@
 mod alloc;
 mod checks_a;
 mod checks_b;
+mod checks_codec;
+mod checks_twin;
 mod core;
 mod driver;
 mod inst;
 mod inst_poplar;
+mod inst_prio2;
 mod model;
 mod rng;
 mod trace_vdaf;
@@ -22,6 +25,8 @@ fn registry() -> Vec<Box<dyn Check>> {
     let mut v: Vec<Box<dyn Check>> = Vec::new();
     v.extend(checks_a::checks());
     v.extend(checks_b::checks());
+    v.extend(checks_codec::checks());
+    v.extend(checks_twin::checks());
     v
 }
 
